@@ -439,8 +439,19 @@ class FileRoundTrip(Scenario):
             pts = Points.create(ws, vertices=_np.zeros((3, 3)), name="pts")
             d1 = pts.add_data({"d1": {"values": _np.arange(3.0)}})
             d2 = pts.add_data({"d2": {"values": _np.arange(3.0) + 1}})
+            pts.find_or_create_property_group(name="group of the first object", properties=[d1.uid, d2.uid])
+            # a second object (listed after the first) that owns a property group, referred to by a data-group form
+            pts2 = Points.create(ws, vertices=_np.zeros((3, 3)) + 1.0, name="pts2")
+            comps = [pts2.add_data({nm: {"values": _np.arange(3.0) + q}}) for q, nm in enumerate(("vx", "vy", "vz"))]
+            pg = pts2.find_or_create_property_group(name="vector", properties=[c.uid for c in comps], property_group_type="3D vector")
             ui = _deepcopy(default_ui_json)
             ui["geoh5"] = ws
+            ui["object2"] = templates.object_parameter(value=str(pts2.uid), mesh_type=[pts2.entity_type.uid])
+            ui["pgroup"] = {"main": True, "label": "PG", "parent": "object2", "association": "Vertex", "dataType": "Float",
+                            "dataGroupType": "3D vector", "value": str(pg.uid)}
+            # a parameter that stays enabled through a dependency although it is not required (the switch is off)
+            ui["flag"] = {"main": True, "label": "Flag", "value": False}
+            ui["dep"] = {"main": True, "label": "Dep", "value": 1.5, "dependency": "flag", "dependencyType": "enabled", "enabled": True}
             ui["object"] = templates.object_parameter(value=str(pts.uid), mesh_type=[pts.entity_type.uid])
             ui["data"] = templates.data_parameter(data_group_type=None, parent="object", association="Vertex", data_type="Float",
                                                   value=str(d1.uid)) if False else {
@@ -464,6 +475,7 @@ class FileRoundTrip(Scenario):
             if reassign:            # later assignments through the public setter must reach the file as well
                 a.set_data_value("flt", 7.25)
                 a.set_data_value("txt", "changed")
+                a.set_data_value("dep", None)
             da = dict(a.data)
             a_enabled = {k: v.get("enabled", True) for k, v in a.ui_json.items() if isinstance(v, dict)}
             demoted = InputFile.demote(dict(da))
@@ -496,6 +508,11 @@ class FileRoundTrip(Scenario):
         if reassign:
             cx.prove(db.get("flt") == 7.25 and db.get("txt") == "changed" and b_enabled.get("flt", True) is True,
                      "values assigned with set_data_value are the ones read back", "file round trip")
+            cx.prove(da.get("dep") is None and db.get("dep") is None,
+                     "None assigned to a parameter that stays enabled (dependency) is what the file reads back", "file round trip")
+        cx.prove(getattr(da.get("pgroup"), "uid", None) == pg.uid and getattr(db.get("pgroup"), "uid", None) == pg.uid,
+                 "a property-group identifier is promoted to the group, whichever object owns it", "promotion")
+        cx.prove(str(demoted.get("pgroup")).strip("{}") == str(pg.uid), "demoting the property group returns its identifier", "promotion")
         if not (obj_opt and not obj_en):
             cx.prove(getattr(da["object"], "uid", None) == pts.uid, "identifier promoted to the workspace entity", "promotion")
         if dv_is_value:
